@@ -321,6 +321,9 @@ def oracle_c07(obs, part, replay):
         if any(ln and b':' not in ln and ln[:1] not in b' \t' for ln in re.split(br'\r?\n', rec['block'][:head_end])[1:]):
             long_header += '/colonless-line'
             part.count('cdx_lines_for_headers_with_colonless_line')
+        if re.search(br'(?im)^content-type:[ \t]*\r?\n[ \t]', rec['block'][:head_end]):
+            long_header += '/folded-content-type'
+            part.count('cdx_lines_for_folded_content_type')
         if head_end - (2 if rec['block'][head_end - 2:head_end] == b'\r\n' else 1) >= 32766:
             long_header += '/header-at-reader-limit'
             part.count('cdx_lines_for_headers_at_the_reader_limit')
@@ -412,6 +415,16 @@ def vary_content_types(rng, case):
                 r['boundaries'] = [b + delta if b > 20 else b for b in r['boundaries']]
                 r['head_len'] += delta
             r['wire'] = new
+        if rng.random() < 0.1:
+            # obs-fold: the value of Content-Type starts on a continuation line (SP or TAB indented)
+            m = re.search(br'(?im)^(content-type:)[ \t]*([^\r\n]*)(\r?\n)', r['wire'][:r['head_len']])
+            if m and m.group(2):
+                new = m.group(1) + m.group(3) + rng.choice([b'\t', b' ', b'\t \t', b'  ']) + m.group(2) + m.group(3)
+                delta = len(new) - (m.end() - m.start())
+                r['wire'] = r['wire'][:m.start()] + new + r['wire'][m.end():]
+                r['boundaries'] = [b + delta if b >= m.end() else b for b in r['boundaries']]
+                r['head_len'] += delta
+                r['classes'] = dict(r['classes'], folded_content_type=True)
         if rng.random() < 0.12:
             # a header line without a colon (a stray status line or cache note that servers do emit): the client
             # skips it, the archived block keeps it, status and MIME type must still be read back
